@@ -52,8 +52,9 @@ fn exec<const N: usize>(case: &SpiCase, info: &mut CaseInfo) -> Result<(), Strin
             SpiOp::Cmd { cmd, args } => {
                 expected.push((false, *cmd as u16));
                 expected.extend(args.iter().map(|b| (true, *b as u16)));
-                allowed = 2;
-                w.borrow_mut().op_budget = ops0 + 2 + 2 + 8;
+                // the property bounds pixel bursts (C20); for a command it only demands *a* bound
+                allowed = 2 + args.len() as u64;
+                w.borrow_mut().op_budget = ops0 + 2 + allowed + 8;
                 di.send_command(*cmd, args)
             }
             SpiOp::Pixels { count, seed } => {
@@ -240,9 +241,9 @@ pub fn run(ctx: &Ctx) -> Report {
     ];
     let mut sec = Section::new(
         &format!("spi-sequences[{}]", ctx.variant),
-        "pixel size N in 1..=4, buffer length in {N, N+1, 2N-1, 2N, 2N+1, .. 64, .. 600} (pre-poisoned), 1..6 ops of send_command(cmd, 0..=20 args) / send_pixels / send_repeated_pixel with counts in {0, 1, cap-1, cap, cap+1, k*cap, k*cap+-1, random}; oracle: concatenated (dc, byte) stream equals instruction(dc low) + params + pixel bytes (dc high) exactly; transactions <= 2 per command + floor(b/usable)+1 per burst; non-trivial = count 0, or count > capacity, or count a multiple of capacity, or buffer not a multiple of N",
+        "pixel size N in 1..=4, buffer length in {N, N+1, 2N-1, 2N, 2N+1, .. 64, .. 600} (pre-poisoned), 1..6 ops of send_command(cmd, 0..=20 args) / send_pixels / send_repeated_pixel with counts in {0, 1, cap-1, cap, cap+1, k*cap, k*cap+-1, random}; oracle: concatenated (dc, byte) stream equals instruction(dc low) + params + pixel bytes (dc high) exactly; transactions <= floor(b/usable)+1 per burst (plus 2 for the preceding command) and <= 2 + parameter count for a command; non-trivial = count 0, or count > capacity, or count a multiple of capacity, or buffer not a multiple of N",
     );
-    run_generated(&mut sec, ctx.seed, ctx.cases(100_000, 3_000_000), ctx.workers, || strategy(false), check, sig);
+    run_generated(&mut sec, ctx.seed, ctx.cases(500_000, 12_000_000), ctx.workers, || strategy(false), check, sig);
     rep.sections.push(sec);
     rep
 }
